@@ -163,8 +163,8 @@ func VsymC14() {
 	W := vr.Param("writers", 2)
 	R := vr.Param("readers", 1)
 	ctx := context.Background()
-	// two URLs that differ in their query only: the cache key is the URL, all of it
-	urlNames := []string{"http://example.com/crl?issuer=1", "http://example.com/crl?issuer=2"}
+	// two URLs that differ in one letter's case inside the query only: the cache key is the URL, every byte of it
+	urlNames := []string{"http://example.com/crl?issuer=a", "http://example.com/crl?issuer=A"}
 	names := &c14Names{}
 	root := ""
 	var writers, readers []c14Prog
